@@ -844,6 +844,31 @@ def run_obj(case):
     return _read_obj(cd, new)
 
 
+# ------------------------------------------------------------------ processing_order (kind 10)
+def run_proc(mode, items):
+    """Rdataset.processing_order() with random.shuffle replaced by an in-place reversal (the model's
+    shuffle parameter instantiated the same way)"""
+    import random as _random
+
+    if mode == 1:
+        rds = dns.rdataset.Rdataset(IN, dns.rdatatype.MX)
+        objs = [dns.rdata.from_text("IN", "MX", f"{p} h{i}.") for p, i in items]
+    else:
+        rds = dns.rdataset.Rdataset(IN, dns.rdatatype.A)
+        objs = [dns.rdata.from_text("IN", "A", f"10.0.{i // 256}.{i % 256}") for p, i in items]
+    ids = {}
+    for (p, i), o in zip(items, objs):
+        rds.add(o)
+        ids[id(o)] = i
+    saved = _random.shuffle
+    _random.shuffle = lambda l: l.reverse()
+    try:
+        out = rds.processing_order()
+    finally:
+        _random.shuffle = saved
+    return [ids[id(o)] for o in out]
+
+
 # ------------------------------------------------------------------ impl
 
 
@@ -885,6 +910,8 @@ def _impl(case):
         return run_canon(case[1], case[2])
     if k in (8, 9):
         return run_obj(case)
+    if k == 10:
+        return run_proc(case[1], case[2])
     return Err(900, "bad case")
 
 
@@ -1289,6 +1316,11 @@ def _cases(ctx):
             vb = va
         if all(sum(len(l) + 1 for l in v) <= 255 for k, v in list(zip(kinds, va)) + list(zip(kinds, vb)) if k == "name"):
             yield "canon", [7, canon_rec(0, ct, va), canon_rec(1, ctb, vb)]
+    # ---- processing_order
+    for _ in range(ctx.n(200, 1500)):
+        n = rng.choice([0, 1, 2, 3, 5, 8])
+        ids_ = rng.sample(range(200), n)
+        yield "procorder", [10, rng.randrange(2), [[rng.choice([0, 5, 10, 10, 20, 65535]), i] for i in ids_]]
     # ---- __getstate__ / __setstate__ (copy, pickle) and replace()
     for _ in range(ctx.n(200, 1500)):
         yield "getstate", gen_obj_case(rng)
@@ -1876,6 +1908,14 @@ def oracle(ctx, kind, case, out):
             fail("constify changed the content", sig="constify")
     elif k == 7:
         oracle_canon(case, out, fail)
+    elif k == 10:
+        want = sorted(i for _, i in case[2])
+        if sorted(out) != want:
+            fail("processing_order is not a rearrangement of the members", sig="procorder")
+        if case[1] == 1:
+            pr = {i: p for p, i in case[2]}
+            if any(pr[a] > pr[b] for a, b in zip(out, out[1:])):
+                fail("processing_order of a prioritised type is not in priority order", sig="procorder")
     elif k == 8:
         # a copy (cls.__new__ + __setstate__(__getstate__())) has the fields of the original
         state, res = out
